@@ -3,7 +3,7 @@
    [run_case v p file] (C01/Driver.v) opens [file] like Minidump::read and requests the eleven
    modelled streams; fields carry Ok/Err/Panic/OutOfFuel, the ledger every Vec::with_capacity.
    Every loop of the model runs on fuel |file| + 1 ([fuel_of]). *)
-From RM Require Import C01.Model C01.Proofs C01.Driver C01.Final.
+From RM Require Import C01.Model C01.Proofs C01.Driver C01.Final C01.Agree.
 Open Scope Z_scope.
 
 (* No modelled site panics, for any byte string, in debug and release builds (fixed code). *)
@@ -140,6 +140,42 @@ Theorem c01_crashpad_info_total : forall e all b, wf_bytes all ->
 Proof. exact crashpad_info_total. Qed.
 Print Assumptions c01_crashpad_info_total.
 
+(* ---- round 3 *)
+(* the model is run in profile Debug only: wherever that run shows no panic (everywhere, by
+   c01_no_panic, for the fixed code) the Release model gives the identical answer *)
+Theorem c01_profiles_agree : forall v file,
+  (forall tag f t, In (tag, f) (o_fields (run_case v Debug file)) -> f <> FPan t) ->
+  run_case v Release file = run_case v Debug file.
+Proof. exact profiles_agree. Qed.
+Print Assumptions c01_profiles_agree.
+
+(* mac crash info: up to 20 records, one version, fixed part by version, C strings from
+   record_start_size; set_string is never called past the string table *)
+Theorem c01_mac_crash_info_total : forall p e all b, wf_bytes all -> blen all < T62 -> wf_bytes b ->
+  (forall t, read_mac_crash_info p e all b <> Pan t) /\ read_mac_crash_info p e all b <> NoFuel.
+Proof. exact mac_crash_info_total. Qed.
+Print Assumptions c01_mac_crash_info_total.
+
+(* system-info strings (CSD version by RVA), mac bootargs, assertion info (fixed UTF-16 buffers),
+   breakpad info, MozSoftErrors *)
+Theorem c01_fixed_streams_total : forall p e all b, wf_bytes all -> blen all < T62 -> wf_bytes b ->
+  ((forall t, sysinfo_strings p e all b <> Pan t) /\ sysinfo_strings p e all b <> NoFuel) /\
+  ((forall t, read_mac_bootargs p e all b <> Pan t) /\ read_mac_bootargs p e all b <> NoFuel) /\
+  ((forall t, read_assertion e b <> Pan t) /\ read_assertion e b <> NoFuel) /\
+  ((forall t, read_breakpad_info e b <> Pan t) /\ read_breakpad_info e b <> NoFuel) /\
+  ((forall t, read_soft_errors b <> Pan t) /\ read_soft_errors b <> NoFuel).
+Proof. exact fixed_streams_total. Qed.
+Print Assumptions c01_fixed_streams_total.
+
+(* print sites: the stack dump's chunks_exact / try_into().unwrap() pairing and the running
+   `offset +=` of the stack and hex dumps never trap, for any pointer width and length *)
+Theorem c01_print_sites_total : forall p w len, 0 <= len < T62 ->
+  ((forall t, stack_print p (Z.to_nat len + 1) w len 0 <> Pan t) /\ stack_print p (Z.to_nat len + 1) w len 0 <> NoFuel) /\
+  ((forall t, hexdump_print p (Z.to_nat len + 1) len 0 <> Pan t) /\ hexdump_print p (Z.to_nat len + 1) len 0 <> NoFuel) /\
+  chunk_size w = array_len w.
+Proof. exact print_sites_total. Qed.
+Print Assumptions c01_print_sites_total.
+
 (* ---- the code before the fix commits: each statement is false, with a concrete file
    (corpus/C01/cases.txt replays the same bytes on the real code) *)
 (* F-C01a (object-info type 0x7777), F-C01c (number_parameters = 16), F-C01e (PPC context printed) *)
@@ -172,7 +208,9 @@ Example c01_nonvacuous_run :
      (6, FErr EStreamNotFound); (7, FErr EStreamNotFound); (8, FErr EStreamNotFound); (9, FErr EStreamNotFound);
      (10, FOk [1; 2]); (11, FOk [15; 0]); (12, FOk []); (13, FOk []); (14, FOk []); (15, FErr EStreamNotFound);
      (16, FErr EStreamNotFound); (17, FErr EStreamNotFound); (18, FErr EStreamNotFound); (19, FErr EStreamNotFound);
-     (20, FErr EStreamNotFound); (21, FErr EStreamNotFound); (22, FErr EStreamNotFound)] /\
+     (20, FErr EStreamNotFound); (21, FErr EStreamNotFound); (22, FErr EStreamNotFound); (23, FOk [0; 1]);
+     (24, FErr EStreamNotFound); (25, FErr EStreamNotFound); (26, FErr EStreamNotFound); (27, FErr EStreamNotFound);
+     (28, FErr EStreamNotFound)] /\
   o_ledger (run_case Fixed Debug nv_dump) = [96; 256; 112; 248; 120].
 Proof. vm_compute. split; reflexivity. Qed.
 (* the xstate iterator on a mask with bits 0, 1, 39 and 63 set; quoted/padded key-value text *)
